@@ -17,8 +17,14 @@ MODES = ["fn", "mod", "trait_self", "static_target"]
 def enumerate_states(tier):
     depths = range(1, 6) if tier == "thorough" else range(1, 4)
     states = []
-    for mode, asy, d, ar, lt in itertools.product(MODES, (False, True), depths, (0, 1, 2), (False, True)):
-        states.append(dict(key="z_%s_%s_d%d_a%d%s" % (mode, "a" if asy else "s", d, ar, "_lt" if lt else ""), mode=mode, asy=asy, depth=d, arity=ar, lt=lt))
+    for mode, asy, d, ar, lt in itertools.product(MODES, (False, True), depths, (0, 1, 2), (False, True, "ab", "gen", "prov")):
+        if lt == "gen" and (d != 1 or mode != "trait_self"):
+            continue    # a generic method: on an entraited trait only (type parameters of fns / impl-block fns are lifted to the trait)
+        if lt == "prov" and (d != 1 or mode != "trait_self"):
+            continue    # a provided (default-bodied) method of an entraited trait
+        if lt in ("ab", "gen", "prov") and ar == 2 and tier != "thorough":
+            continue
+        states.append(dict(key="z_%s_%s_d%d_a%d%s" % (mode, "a" if asy else "s", d, ar, {False: "", True: "_lt", "ab": "_ltab", "gen": "_gen", "prov": "_prov"}[lt]), mode=mode, asy=asy, depth=d, arity=ar, lt=lt))
     return states, len(states), dict(depths=list(depths), arities=[0, 1, 2], modes=MODES)
 
 
@@ -26,11 +32,20 @@ def render(s):
     key, mode, asy, d, ar = s["key"], s["mode"], s["asy"], s["depth"], s["arity"]
     lt = s.get("lt")
     # optionally a named lifetime parameter and a borrowed argument in every signature of the chain
-    params = "".join(", a%d: u64" % i for i in range(ar)) + (", s: &'a str" if lt else "")
-    args = "".join(", %d" % (3 + i) for i in range(ar)) + (', "xy"' if lt else "")
-    fwd = ", ".join(["a%d" % i for i in range(ar)] + (["s"] if lt else []))
-    asum = "".join(" + a%d" % i for i in range(ar)) + (" + s.len() as u64" if lt else "")
-    G = "<'a>" if lt else ""
+    params = "".join(", a%d: u64" % i for i in range(ar))
+    args = "".join(", %d" % (3 + i) for i in range(ar))
+    fwdl = ["a%d" % i for i in range(ar)]
+    asum = "".join(" + a%d" % i for i in range(ar))
+    G = ""
+    if lt is True:
+        params, args, fwdl, asum, G = params + ", s: &'a str", args + ', "xy"', fwdl + ["s"], asum + " + s.len() as u64", "<'a>"
+    elif lt == "ab":
+        # two named lifetimes related by an outlives bound
+        params, args, fwdl, asum, G = params + ", s: &'a str, t: &'b str", args + ', "xy", ""', fwdl + ["s", "t"], \
+            asum + " + s.len() as u64 + t.len() as u64", "<'a, 'b: 'a>"
+    elif lt == "gen":
+        params, args, fwdl, asum, G = params + ", v: V", args + ", 2u64", fwdl + ["v"], asum + " + v.into()", "<V: ::core::marker::Send + ::core::convert::Into<u64>>"
+    fwd = ", ".join(fwdl)
     A = "async " if asy else ""
     AW = ".await" if asy else ""
     L = ["mod %s {" % key, "    use super::rt;"]
@@ -55,6 +70,16 @@ def render(s):
         L.append("    pub mod bottom { pub %sfn l%d%s(deps: %s%s) -> u64 { %s own%s } pub fn unrelated(deps: %s) {} }" % (A, i, G, any_, params, boxes(i), asum, any_))
         app = "::entrait::Impl::new(())"
         direct = ("l1(&app%s)" % args) if d > 1 else ("bottom::l1(&app%s)" % args)
+    elif mode == "trait_self" and lt == "prov":
+        # the method is provided by the trait; its body mentions an identifier spelled like the method
+        L.append("    #[::entrait::entrait]")
+        L.append("    pub trait L%d: ::core::marker::Sync { fn stats(&self) -> Stats; %sfn l%d(&self%s) -> u64 { %s let l%d = self.stats().l%d; own%s + l%d } }"
+                 % (i, A, i, params, boxes(i), i, i, asum, i))
+        L.append("    pub struct Stats { pub l1: u64 }")
+        L.append("    pub struct App;")
+        L.append("    impl L%d for App { fn stats(&self) -> Stats { Stats { l1: 0 } } }" % i)
+        app = "::entrait::Impl::new(App)"
+        direct = "<App as L1>::l1(&*app%s)" % args
     elif mode == "trait_self":
         L.append("    #[::entrait::entrait]")
         L.append("    pub trait L%d { %sfn l%d%s(&self%s) -> u64; }" % (i, A, i, G, params))
@@ -87,7 +112,8 @@ def render(s):
 def model(s):
     d, ar = s["depth"], s["arity"]
     total = d * (d + 1) // 2
-    res = sum(i * i for i in range(1, d + 1)) + d * (sum(3 + i for i in range(ar)) + (2 if s.get("lt") else 0))
+    extra = {False: 0, None: 0, True: 2, "ab": 2, "gen": 2, "prov": 0}[s.get("lt")]
+    res = sum(i * i for i in range(1, d + 1)) + d * (sum(3 + i for i in range(ar)) + extra)
     return dict(allocs="%d|%d" % (total, total), res="%d|%d" % (res, res))
 
 
@@ -133,7 +159,7 @@ def evaluate(states, report, tier):
             if sig in done:
                 continue
             done.add(sig)
-            tags = {"mode:" + s["mode"], "async" if s["asy"] else "sync", "depth:%d" % s["depth"], "arity:%d" % s["arity"], "named-lifetime" if s.get("lt") else "elided"}
+            tags = {"mode:" + s["mode"], "async" if s["asy"] else "sync", "depth:%d" % s["depth"], "arity:%d" % s["arity"], {False: "elided", None: "elided", True: "named-lifetime", "ab": "outlives-bound", "gen": "generic-method", "prov": "provided-method"}[s.get("lt")]}
             report.violation(s["key"], tags, sig, detail, state=s, source=engine.standalone_source(u), meta=dict(mode="run"))
 
 
